@@ -450,7 +450,7 @@ Proof.
   cbn [bstates] in Hb. inversion Hb as [|? ? _ Hb']; subst. destruct Hd as [Hd1 Hd2].
   destruct (bstep e st o) as [[st1|] v] eqn:E; [|constructor].
   assert (B1 : seg_bound st1) by (destruct r; cbn [bstates] in Hb'; inversion Hb'; assumption).
-  destruct (bstep_hinv e st objs pads o st1 v Si SP Ho Hd1 E B1) as (objs1 & pads1 & S1).
+  destruct (bstep_hinv e st objs pads o st1 v Si SP Ho Hd1 E B1) as (objs1 & pads1 & S1 & _).
   pose proof (bstep_spool e st o st1 v Hcs SP Hd1 E) as SP1.
   destruct (bstep_frame e st objs pads o st1 v Si SP Ho Hd1 E) as [K N].
   econstructor; [exact K|exact N|]. eapply IH; eauto.
@@ -473,4 +473,45 @@ Proof.
   rewrite Forall_forall in All. destruct (All _ (final_in e ops st1)) as (objs' & pads' & (H' & _)).
   apply (last_write_wins m0 (w_dst (st_w st1)) (touches e st1 ops)); auto.
   pose proof (hi_small _ _ _ H' sid) as X. unfold maxSegmentSize in X. lia.
+Qed.
+
+(* the tables of the last state extend the tables of the first *)
+Theorem brun_final_ext e : cfg_strict (e_cfgs e) = true -> forall ops st objs pads,
+  sinv st objs pads -> spool st -> sub_prog ops = true -> dst_run e st ops -> Forall seg_bound (bstates e st ops) ->
+  exists objs' pads', sinv (final e st ops) objs' pads' /\ ext objs pads objs' pads'.
+Proof.
+  intros Hcs. induction ops as [|o r IH]; intros st objs pads Si SP Hp Hd Hb; cbn [final].
+  { exists objs, pads. split; [exact Si|apply ext_refl]. }
+  cbn [sub_prog forallb] in Hp. apply andb_prop in Hp. destruct Hp as [Ho Hr].
+  cbn [bstates] in Hb. inversion Hb as [|? ? _ Hb']; subst. destruct Hd as [Hd1 Hd2].
+  destruct (bstep e st o) as [[st1|] v] eqn:E.
+  2:{ exists objs, pads. split; [exact Si|apply ext_refl]. }
+  assert (B1 : seg_bound st1) by (destruct r; cbn [bstates] in Hb'; inversion Hb'; assumption).
+  destruct (bstep_hinv e st objs pads o st1 v Si SP Ho Hd1 E B1) as (objs1 & pads1 & S1 & X1).
+  pose proof (bstep_spool e st o st1 v Hcs SP Hd1 E) as SP1.
+  destruct (IH st1 objs1 pads1 S1 SP1 Hr Hd2 Hb') as (objs2 & pads2 & S2 & X2).
+  exists objs2, pads2. split; [exact S2|eapply ext_trans; eauto].
+Qed.
+
+(* [run_last_pointer_wins]: at the level of the interpreter - the words a pointer setter stored
+   for table object [ht] at slot [q] (state st1); then ANY program none of whose ops touches the
+   slot word or its landing pads; at the end Segment.readPtr at [q] returns the handle of [ht] *)
+Theorem run_last_pointer_wins e st1 objs pads ops q ht raw oldlen ps strict rl depth p rl' :
+  cfg_strict (e_cfgs e) = true ->
+  sinv st1 objs pads -> spool st1 -> sub_prog ops = true -> dst_run e st1 ops -> Forall seg_bound (bstates e st1 ops) ->
+  placed (bm_data (w_dst (st_w st1))) (fst q) (snd q) (p_seg ht) (obj_start ht) raw oldlen ps ->
+  In ht objs -> incl ps pads -> snd q mod 8 = 0 ->
+  raw_of ht = Ok raw -> (p_kind ht = KStruct -> os_isZero (p_size ht) = false) ->
+  Forall (fun R : Z -> Z -> Prop => (forall k, snd q <= k < snd q + 8 -> ~ R (fst q) k) /\
+            (forall r, In r ps -> forall k, r_start r <= k < r_start r + r_size r -> ~ R (r_seg r) k)) (touches e st1 ops) ->
+  let m' := w_dst (st_w (final e st1 ops)) in
+  readPtr strict (bm_data m') rl (fst q) (nth (Z.to_nat (fst q)) (bm_data m') []) (snd q) depth = (Ok p, rl') ->
+  p = handle_of ht depth.
+Proof.
+  intros Hcs Si SP Hp Hd Hb Pl Hht Ips Hqa Hraw Hnz F m' HR.
+  pose proof (brun_chain e Hcs ops st1 objs pads Si SP Hp Hd Hb) as Ch.
+  destruct (brun_final_ext e Hcs ops st1 objs pads Si SP Hp Hd Hb) as (objs' & pads' & (H' & _) & [[eo ->] [ep ->]]).
+  apply (last_pointer_wins (w_dst (st_w st1)) (touches e st1 ops) m' (objs ++ eo) (pads ++ ep) q ht raw oldlen ps strict rl depth p rl'); auto.
+  - apply in_or_app. left. exact Hht.
+  - intros x Hx. apply in_or_app. left. apply Ips. exact Hx.
 Qed.
